@@ -39,7 +39,7 @@ PROPS = {
         explanation='Lean: read_back (history-level refinement of a plain record of fields), read_back_from_empty, getSession_saved, getToken_setToken, fieldsOf_applyW, split_join; tie: complete jar view after every Save; oracle: reference record of last written values compared byte for byte with the getters of the next request',
     ),
     'C09': dict(
-        family='session', driver_family='handler', fields=['jar'], facts=['cookieStoreKeyArgs', 'securecookieMaxLen', 'minEncryptionKeyLength'],
+        family='session', driver_family='handler', fields=['jar'], facts=['cookieStoreKeyArgs', 'cookieStoreAllPairsEncrypted', 'securecookieMaxLen', 'minEncryptionKeyLength'],
         extra_runs=[dict(family='handler', diff=False)],
         trusted=['HMAC-SHA256 unforgeability enters as MacInj, AES-CTR as a stream cipher with unknown keystream: cryptographic strength is assumed, not proved',
                  'gorilla/securecookie and gorilla/sessions are modelled at the framing level (b64(ts|b64(body)|mac(name|ts|b64(body))))'],
